@@ -239,7 +239,7 @@
     pair_one!(laws_i128_u128_eq_ba, { let x: i128 = kani::any(); let y: u128 = kani::any(); (Value::from(x), Value::from(y), Some(num_cmp(Num::I(x as i128), Num::U(y as u128)))) }, 3);
 //# ob name=laws_i128_u128_hash role=disabled fn="impl Ord/PartialEq/Hash for Value" kind=complete tier=thorough stmt="I128 x U128: equal values hash identically"
     pair_hash!(laws_i128_u128_hash, { let x: i128 = kani::any(); let y: u128 = kani::any(); (Value::from(x), Value::from(y), Some(num_cmp(Num::I(x as i128), Num::U(y as u128)))) });
-//# ob name=laws_i64_f64 fn="impl Ord/PartialEq/Hash for Value" kind=complete stmt="I64 x F64 (every non-NaN float): exact mathematical order incl. the 2^53/2^63/2^64/2^127/2^128 boundaries; antisymmetric; == iff Equal"
+//# ob name=laws_i64_f64 tier=thorough fn="impl Ord/PartialEq/Hash for Value" kind=complete stmt="I64 x F64 (every non-NaN float): exact mathematical order incl. the 2^53/2^63/2^64/2^127/2^128 boundaries; antisymmetric; == iff Equal"
     pair_all!(laws_i64_f64, { let x: i64 = kani::any(); let f: f64 = kani::any(); kani::assume(!f.is_nan()); (Value::from(x), Value::from(f), Some(num_cmp(Num::I(x as i128), Num::F(f)))) }, 2);
 //# ob name=laws_i64_f64_hash role=disabled fn="impl Ord/PartialEq/Hash for Value" kind=complete tier=thorough stmt="I64 x F64: equal values hash identically"
     pair_hash!(laws_i64_f64_hash, { let x: i64 = kani::any(); let f: f64 = kani::any(); kani::assume(!f.is_nan()); (Value::from(x), Value::from(f), Some(num_cmp(Num::I(x as i128), Num::F(f)))) });
@@ -329,45 +329,45 @@
     pair_all!(laws_bool_bool, mk_kinds(2, 2), 2);
 //# ob name=laws_bool_bool_hash fn="impl Ord/PartialEq/Hash for Value" kind=complete stmt="bool x bool: equal values hash identically"
     pair_hash!(laws_bool_bool_hash, mk_kinds(2, 2));
-//# ob name=laws_undef_none_cmp_ab fn="impl Ord/PartialEq/Hash for Value" kind=complete stmt="undef x none: ordered by kind only and never equal (cmp_ab)"
+//# ob name=laws_undef_none_cmp_ab tier=thorough fn="impl Ord/PartialEq/Hash for Value" kind=complete stmt="undef x none: ordered by kind only and never equal (cmp_ab)"
     pair_one!(laws_undef_none_cmp_ab, mk_kinds(0, 1), 0);
-//# ob name=laws_undef_none_cmp_ba fn="impl Ord/PartialEq/Hash for Value" kind=complete stmt="undef x none: ordered by kind only and never equal (cmp_ba)"
+//# ob name=laws_undef_none_cmp_ba tier=thorough fn="impl Ord/PartialEq/Hash for Value" kind=complete stmt="undef x none: ordered by kind only and never equal (cmp_ba)"
     pair_one!(laws_undef_none_cmp_ba, mk_kinds(0, 1), 1);
-//# ob name=laws_undef_none_eq_ab fn="impl Ord/PartialEq/Hash for Value" kind=complete stmt="undef x none: ordered by kind only and never equal (eq_ab)"
+//# ob name=laws_undef_none_eq_ab tier=thorough fn="impl Ord/PartialEq/Hash for Value" kind=complete stmt="undef x none: ordered by kind only and never equal (eq_ab)"
     pair_one!(laws_undef_none_eq_ab, mk_kinds(0, 1), 2);
-//# ob name=laws_undef_none_eq_ba fn="impl Ord/PartialEq/Hash for Value" kind=complete stmt="undef x none: ordered by kind only and never equal (eq_ba)"
+//# ob name=laws_undef_none_eq_ba tier=thorough fn="impl Ord/PartialEq/Hash for Value" kind=complete stmt="undef x none: ordered by kind only and never equal (eq_ba)"
     pair_one!(laws_undef_none_eq_ba, mk_kinds(0, 1), 3);
-//# ob name=laws_none_bool_cmp_ab fn="impl Ord/PartialEq/Hash for Value" kind=complete stmt="none x bool: ordered by kind only and never equal (cmp_ab)"
+//# ob name=laws_none_bool_cmp_ab tier=thorough fn="impl Ord/PartialEq/Hash for Value" kind=complete stmt="none x bool: ordered by kind only and never equal (cmp_ab)"
     pair_one!(laws_none_bool_cmp_ab, mk_kinds(1, 2), 0);
-//# ob name=laws_none_bool_cmp_ba fn="impl Ord/PartialEq/Hash for Value" kind=complete stmt="none x bool: ordered by kind only and never equal (cmp_ba)"
+//# ob name=laws_none_bool_cmp_ba tier=thorough fn="impl Ord/PartialEq/Hash for Value" kind=complete stmt="none x bool: ordered by kind only and never equal (cmp_ba)"
     pair_one!(laws_none_bool_cmp_ba, mk_kinds(1, 2), 1);
-//# ob name=laws_none_bool_eq_ab fn="impl Ord/PartialEq/Hash for Value" kind=complete stmt="none x bool: ordered by kind only and never equal (eq_ab)"
+//# ob name=laws_none_bool_eq_ab tier=thorough fn="impl Ord/PartialEq/Hash for Value" kind=complete stmt="none x bool: ordered by kind only and never equal (eq_ab)"
     pair_one!(laws_none_bool_eq_ab, mk_kinds(1, 2), 2);
-//# ob name=laws_none_bool_eq_ba fn="impl Ord/PartialEq/Hash for Value" kind=complete stmt="none x bool: ordered by kind only and never equal (eq_ba)"
+//# ob name=laws_none_bool_eq_ba tier=thorough fn="impl Ord/PartialEq/Hash for Value" kind=complete stmt="none x bool: ordered by kind only and never equal (eq_ba)"
     pair_one!(laws_none_bool_eq_ba, mk_kinds(1, 2), 3);
-//# ob name=laws_none_num_cmp_ab fn="impl Ord/PartialEq/Hash for Value" kind=complete stmt="none x num: ordered by kind only and never equal (cmp_ab)"
+//# ob name=laws_none_num_cmp_ab tier=thorough fn="impl Ord/PartialEq/Hash for Value" kind=complete stmt="none x num: ordered by kind only and never equal (cmp_ab)"
     pair_one!(laws_none_num_cmp_ab, mk_kinds(1, 3), 0);
-//# ob name=laws_none_num_cmp_ba fn="impl Ord/PartialEq/Hash for Value" kind=complete stmt="none x num: ordered by kind only and never equal (cmp_ba)"
+//# ob name=laws_none_num_cmp_ba tier=thorough fn="impl Ord/PartialEq/Hash for Value" kind=complete stmt="none x num: ordered by kind only and never equal (cmp_ba)"
     pair_one!(laws_none_num_cmp_ba, mk_kinds(1, 3), 1);
-//# ob name=laws_none_num_eq_ab fn="impl Ord/PartialEq/Hash for Value" kind=complete stmt="none x num: ordered by kind only and never equal (eq_ab)"
+//# ob name=laws_none_num_eq_ab tier=thorough fn="impl Ord/PartialEq/Hash for Value" kind=complete stmt="none x num: ordered by kind only and never equal (eq_ab)"
     pair_one!(laws_none_num_eq_ab, mk_kinds(1, 3), 2);
-//# ob name=laws_none_num_eq_ba fn="impl Ord/PartialEq/Hash for Value" kind=complete stmt="none x num: ordered by kind only and never equal (eq_ba)"
+//# ob name=laws_none_num_eq_ba tier=thorough fn="impl Ord/PartialEq/Hash for Value" kind=complete stmt="none x num: ordered by kind only and never equal (eq_ba)"
     pair_one!(laws_none_num_eq_ba, mk_kinds(1, 3), 3);
-//# ob name=laws_undef_num_cmp_ab fn="impl Ord/PartialEq/Hash for Value" kind=complete stmt="undef x num: ordered by kind only and never equal (cmp_ab)"
+//# ob name=laws_undef_num_cmp_ab tier=thorough fn="impl Ord/PartialEq/Hash for Value" kind=complete stmt="undef x num: ordered by kind only and never equal (cmp_ab)"
     pair_one!(laws_undef_num_cmp_ab, mk_kinds(0, 3), 0);
-//# ob name=laws_undef_num_cmp_ba fn="impl Ord/PartialEq/Hash for Value" kind=complete stmt="undef x num: ordered by kind only and never equal (cmp_ba)"
+//# ob name=laws_undef_num_cmp_ba tier=thorough fn="impl Ord/PartialEq/Hash for Value" kind=complete stmt="undef x num: ordered by kind only and never equal (cmp_ba)"
     pair_one!(laws_undef_num_cmp_ba, mk_kinds(0, 3), 1);
-//# ob name=laws_undef_num_eq_ab fn="impl Ord/PartialEq/Hash for Value" kind=complete stmt="undef x num: ordered by kind only and never equal (eq_ab)"
+//# ob name=laws_undef_num_eq_ab tier=thorough fn="impl Ord/PartialEq/Hash for Value" kind=complete stmt="undef x num: ordered by kind only and never equal (eq_ab)"
     pair_one!(laws_undef_num_eq_ab, mk_kinds(0, 3), 2);
-//# ob name=laws_undef_num_eq_ba fn="impl Ord/PartialEq/Hash for Value" kind=complete stmt="undef x num: ordered by kind only and never equal (eq_ba)"
+//# ob name=laws_undef_num_eq_ba tier=thorough fn="impl Ord/PartialEq/Hash for Value" kind=complete stmt="undef x num: ordered by kind only and never equal (eq_ba)"
     pair_one!(laws_undef_num_eq_ba, mk_kinds(0, 3), 3);
-//# ob name=laws_undef_bool_cmp_ab fn="impl Ord/PartialEq/Hash for Value" kind=complete stmt="undef x bool: ordered by kind only and never equal (cmp_ab)"
+//# ob name=laws_undef_bool_cmp_ab tier=thorough fn="impl Ord/PartialEq/Hash for Value" kind=complete stmt="undef x bool: ordered by kind only and never equal (cmp_ab)"
     pair_one!(laws_undef_bool_cmp_ab, mk_kinds(0, 2), 0);
-//# ob name=laws_undef_bool_cmp_ba fn="impl Ord/PartialEq/Hash for Value" kind=complete stmt="undef x bool: ordered by kind only and never equal (cmp_ba)"
+//# ob name=laws_undef_bool_cmp_ba tier=thorough fn="impl Ord/PartialEq/Hash for Value" kind=complete stmt="undef x bool: ordered by kind only and never equal (cmp_ba)"
     pair_one!(laws_undef_bool_cmp_ba, mk_kinds(0, 2), 1);
-//# ob name=laws_undef_bool_eq_ab fn="impl Ord/PartialEq/Hash for Value" kind=complete stmt="undef x bool: ordered by kind only and never equal (eq_ab)"
+//# ob name=laws_undef_bool_eq_ab tier=thorough fn="impl Ord/PartialEq/Hash for Value" kind=complete stmt="undef x bool: ordered by kind only and never equal (eq_ab)"
     pair_one!(laws_undef_bool_eq_ab, mk_kinds(0, 2), 2);
-//# ob name=laws_undef_bool_eq_ba fn="impl Ord/PartialEq/Hash for Value" kind=complete stmt="undef x bool: ordered by kind only and never equal (eq_ba)"
+//# ob name=laws_undef_bool_eq_ba tier=thorough fn="impl Ord/PartialEq/Hash for Value" kind=complete stmt="undef x bool: ordered by kind only and never equal (eq_ba)"
     pair_one!(laws_undef_bool_eq_ba, mk_kinds(0, 2), 3);
 
     // ---- strings (small strings, all UTF-8 strings of <= 2 bytes) and number-vs-string
